@@ -23,8 +23,8 @@ def check(run, prog, tier):
     run.rule("C12-d", "process_user_command returns 0 only when get_user_command found nothing: every return reachable after a command was taken is non-zero", 1)
     run.rule("C12-c", "HAS_CMD_TURN is set only by the grant loop and cleared only by get_user_command; only get_user_command reads it", 2)
 
-    be = run.need(prog.func("backend"), "backend")
-    guc = run.need(prog.unit("src/comm.c").funcs.get("get_user_command"), "get_user_command")
+    be = run.need(prog.funci("backend"), "backend")
+    guc = run.need(prog.funci("get_user_command", "src/comm.c"), "get_user_command")
     run.saw(be)
     run.saw(guc)
 
@@ -105,7 +105,7 @@ def check(run, prog, tier):
            what="get_user_command does not visit every connection slot once")
 
     # ---- C12-d: process_user_command's result drives the backend's command loop
-    puc = run.need(prog.unit("src/comm.c").funcs.get("process_user_command"), "process_user_command")
+    puc = run.need(prog.funci("process_user_command", "src/comm.c"), "process_user_command")
     run.saw(puc)
     gtest = [bid for bid in puc.reachable() if puc.branch_cond(bid) is not None and any(x.get("k") == "Call" and x.get("fn") == "get_user_command" for x in walk(puc.branch_cond(bid)))]
     run.need(gtest, "get_user_command test in process_user_command")
@@ -148,6 +148,10 @@ def check(run, prog, tier):
                     (setters if n.get("op") == "|=" else clearers).add(f.name)
                 elif n.get("k") == "Bin" and n.get("op") == "&" and mentions(n["R"], "HAS_CMD_TURN") and "~" not in show(n["R"]):
                     readers.add(f.name)
+    import helpers
+    setters = helpers.fold(prog, setters, {"backend"})
+    clearers = helpers.fold(prog, clearers, {"get_user_command"})
+    readers = helpers.fold(prog, readers, {"get_user_command", "backend"})
     run.ob("C12-c", "bit-writers", setters == {"backend"} and clearers == {"get_user_command"}, "set by %s, cleared by %s" % (sorted(setters), sorted(clearers)), be.file, None, None,
            what="HAS_CMD_TURN set by %s / cleared by %s" % (sorted(setters), sorted(clearers)))
     run.ob("C12-c", "bit-readers", readers <= {"get_user_command"}, "read by %s (command() issued from LPC goes through process_command and never consults the turn)" % sorted(readers), guc.file, None, None,
